@@ -107,7 +107,7 @@ func runC14(ctx *Ctx) *Report {
 	kinds := []string{"iter-text", "batch-text", "iter-dry", "json", "yaml", "walk", "mkdir", "verify"}
 	ki := 0
 	for fi, f := range forests {
-		sp := coveringSpellings()[fi%24]
+		sp := coveringSpellings()[fi%len(coveringSpellings())]
 		doc := spell(f, sp)
 		stepK := 1
 		if !ctx.Thorough && len(doc) > 12 {
@@ -231,7 +231,7 @@ func runC14(ctx *Ctx) *Report {
 		if len(f) < 2 && fi%3 != 0 {
 			continue
 		}
-		doc := spell(f, coveringSpellings()[fi%24])
+		doc := spell(f, coveringSpellings()[fi%len(coveringSpellings())])
 		for k := 0; k <= len(doc); k += 1 + fi%3 {
 			c := newCase("massive-reader")
 			c.Mode = []string{"text", "json", "dry", "walk"}[(fi+k)%4]
